@@ -5,7 +5,7 @@ package actionlint
 func verifC20NativeRun(st *verifC20Cmd) ([]byte, error)                                  { return nil, nil }
 func verifC20NativeTool(stdout string, exit int) (*externalCommand, func() (int, string)) { return nil, nil }
 
-func verifC20NativeSchedule(fail, single bool) {}
+func verifC20NativeSchedule(fail bool, files int) {}
 
 func verifC10NativeRaces() {}
 
